@@ -84,6 +84,14 @@ def torus(n=3, m=3):
     return np.array(v, dtype=float).T, np.array(e).T
 
 
+def two_tets_face():
+    """Non-manifold multitrace-like grid: two tetrahedra glued along the face (1, 2, 3), which is kept once: 7 triangles, junction edges with 3 faces.
+    Elements 0..3 form a closed surface (tetrahedron A), 4..6 the remaining faces of tetrahedron B."""
+    v = np.array([[0.1, 0.0, 1.0], [0, 0, 0], [1.1, 0.1, 0], [0.3, 0.9, 0.1], [0.4, 0.3, -1.2]]).T
+    e = np.array([[0, 1, 2], [0, 2, 3], [0, 3, 1], [1, 3, 2], [4, 2, 1], [4, 3, 2], [4, 1, 3]]).T
+    return v, e
+
+
 def fan3():
     """Non-manifold: three triangles on one edge."""
     v = np.array([[0.0, 0, 0], [1.0, 0, 0], [0.5, 1, 0], [0.5, -0.3, 0.9], [0.4, -0.5, -0.8]]).T
